@@ -6,7 +6,7 @@ import types
 import warnings
 
 from .. import tlc
-from ..core import MachineryError, pmap
+from ..core import REPO, MachineryError, pmap
 
 ATOM = {
     "sym": "x", "sym2": "y", "kw": ":k", "int": "1", "float": "1.5", "str": '"s"', "bytes": 'b"s"', "none": "None", "true": "True",
@@ -82,7 +82,7 @@ def mutate_corpus(rng, n):
     import hy
     from pathlib import Path
     forms = []
-    for p in sorted(Path("/repo/tests/native_tests").glob("*.hy")):
+    for p in sorted((REPO / "tests" / "native_tests").glob("*.hy")):
         try:
             for f in hy.read_many(p.read_text(), filename=str(p)):
                 if isinstance(f, hy.models.Expression) and len(hy.repr(f)) < 400:
